@@ -12,7 +12,7 @@ SHARDS = {"quick": 16, "thorough": 16}
 WATCHDOG = {"quick": 1800, "thorough": 10800}
 CASES = {"quick": 250, "thorough": 1500}
 FLOORS = {
-    "quick": {"distinct_nontrivial": 1100, "score_positions_checked": 56000, "runs_checked": 3700,
+    "quick": {"long_series_cases": 2, "distinct_nontrivial": 1100, "score_positions_checked": 56000, "runs_checked": 3700,
               "reversal_pairs": 1100, "cases[bandwidth=1]": 160, "runs_below_min_detection_interval": 220,
               "cases[n==2*bandwidth]": 130},
     "thorough": {"distinct_nontrivial": 4000, "score_positions_checked": 500000},
@@ -60,6 +60,27 @@ def make_recipe(rng, tier):
             "hseed": int(rng.integers(2 ** 31)), "frame": "df" if rng.random() < 0.5 else None}
 
 
+def long_recipe(rng):
+    """A long series (thousands of admissible positions): one transform over far more splits than the short cases
+    produce (block-wise / chunked evaluation paths).  Regenerated from the seed; the recipe stays small."""
+    from vf.spec import S
+
+    n = int(rng.integers(4300, 9800))
+    b = int(rng.integers(3, 40))
+    cs = [None, S("L2Cost", param=None), S("CUSUM")][int(rng.integers(3))]
+    spec = S("MovingWindow", change_score=cs, bandwidth=b, threshold_scale=1.0, level=0.01, min_detection_interval=1)
+    return {"det": spec, "long": {"n": n, "p": int(rng.integers(1, 3)), "seed": int(rng.integers(2 ** 31))},
+            "data_kind": "long", "int_dtype": False, "history": None, "hseed": 0, "frame": None}
+
+
+def _long_data(d):
+    rng = np.random.default_rng(d["seed"])
+    X = rng.standard_normal((d["n"], d["p"]))
+    X[int(d["n"] * rng.uniform(0.93, 0.99)):] += 3.0   # a strong change near the end of the series
+    X[int(d["n"] * rng.uniform(0.2, 0.8)):] += 2.0
+    return X
+
+
 def fresh_score(spec_cs, X):
     from skchange.change_scores import CUSUM, to_change_score
 
@@ -82,7 +103,9 @@ def runs_above(scores, thr):
 
 
 def exec_case(ctx, r):
-    X = np.asarray(r["X"], dtype=float)
+    X = _long_data(r["long"]) if r.get("long") else np.asarray(r["X"], dtype=float)
+    if r.get("long"):
+        ctx.stat("long_series_cases")
     if r.get("int_dtype"):
         X = X.astype(np.int64)  # the same numbers passed with an integer dtype
     n, p = X.shape
@@ -190,7 +213,7 @@ def exec_case(ctx, r):
         if rtol is None:
             ctx.stat("ill_conditioned_skipped")
             if kept:
-                ctx.nt(digest([spec, r["X"]]))
+                ctx.nt(digest([spec, r.get("long") or r["X"]]))
             return
         mirrored = np.zeros(n)
         mirrored[ts] = scores[n - ts]
@@ -213,7 +236,7 @@ def exec_case(ctx, r):
             else:
                 ctx.stat("near_tie_skipped")
     if kept:
-        ctx.nt(digest([spec, r["X"]]))
+        ctx.nt(digest([spec, r.get("long") or r["X"]]))
     ctx.sample({"case": label, "threshold": thr, "runs": runs[:6], "changepoints": cp}, cap=3)
 
 
@@ -221,6 +244,9 @@ def run(ctx):
     I.install()
     for _ in range(CASES[ctx.tier]):
         exec_case(ctx, make_recipe(ctx.rng, ctx.tier))
+    if ctx.shard < 4:  # four long series per quick run
+        for _ in range(1 if ctx.tier == "quick" else 3):
+            exec_case(ctx, long_recipe(ctx.rng))
 
 
 def replay(ctx, sub, recipe):
